@@ -612,7 +612,7 @@ def r02d(ctx):
                     t = ast.unparse(defs.expand(d, at=p.stmt))
                 except Exception:  # noqa: BLE001
                     t = ast.unparse(d)
-                single_input = re.fullmatch(r"len\(\w+\) == 1", t) is not None
+                single_input = re.fullmatch(r"len\([\w\.]+\) == 1", t) is not None
                 equal_known = ".divisions ==" in t and "known_divisions" in t
                 one_partition = "npartitions == 1" in t
                 if not (single_input or equal_known or one_partition):
